@@ -451,7 +451,52 @@ func ruleInitBody(r *Run) {
 func initFieldOnOpen(r *Run, open *ssa.Function, field string) {
 	p := r.P
 	// must-store summary (least fixpoint from below over the reader functions + open)
+	unwrapFn := func(v ssa.Value) *ssa.Function {
+		var f *ssa.Function
+		switch x := v.(type) {
+		case *ssa.MakeClosure:
+			f, _ = x.Fn.(*ssa.Function)
+		case *ssa.Function:
+			f = x
+		}
+		for d := 0; d < 3 && f != nil && f.Synthetic != "" && !p.inModule(f); d++ {
+			var inner *ssa.Function
+			allInstrs(f, func(in ssa.Instruction) {
+				if ci, ok := in.(ssa.CallInstruction); ok {
+					if g := ci.Common().StaticCallee(); g != nil {
+						inner = g
+					}
+				}
+			})
+			f = inner
+		}
+		return f
+	}
 	cands := append([]*ssa.Function{}, buildReaderModel(p).Funcs...)
+	if field != "Body" {
+		// methods handed on as function values (d.parseContentTypes passed to a loading helper)
+		seenC := map[*ssa.Function]bool{}
+		for _, f := range cands {
+			seenC[f] = true
+		}
+		scan := []*ssa.Function{open}
+		for g := range p.staticReach(open) {
+			scan = append(scan, g)
+		}
+		for _, g := range scan {
+			allInstrs(g, func(in ssa.Instruction) {
+				for _, op := range in.Operands(nil) {
+					if *op == nil {
+						continue
+					}
+					if h := unwrapFn(*op); h != nil && p.inModule(h) && h.Parent() == nil && !seenC[h] && h.Pkg != nil && h.Pkg.Pkg.Path() == pkgDoc {
+						seenC[h] = true
+						cands = append(cands, h)
+					}
+				}
+			})
+		}
+	}
 	if field != "Body" {
 		// the package-level parts are read by plain functions, not token readers: everything open reaches
 		inC := map[*ssa.Function]bool{}
@@ -522,6 +567,126 @@ func initFieldOnOpen(r *Run, open *ssa.Function, field string) {
 			}
 		}
 	}
+	// A loading helper may be handed the parser and the fallback as function values
+	// (loadOptionalPart(name, d.parseContentTypes, func() { d.contentTypes = defaults() })): it is
+	// evaluated per call site with those functions bound to its parameters.
+	storesOnAllPaths := func(g *ssa.Function) bool {
+		if g == nil || len(g.Blocks) == 0 {
+			return false
+		}
+		cut := map[*ssa.BasicBlock]bool{}
+		allInstrs(g, func(in ssa.Instruction) {
+			if storesBody(in) {
+				cut[in.Block()] = true
+			}
+			if c, ok := in.(*ssa.Call); ok && must[staticCallee(c)] {
+				cut[c.Block()] = true
+			}
+		})
+		if len(cut) == 0 {
+			return false
+		}
+		reach := reachableBlocks(g.Blocks[0], cut)
+		for _, ret := range returnsOf(g) {
+			if reach[ret.Block()] {
+				return false
+			}
+		}
+		return true
+	}
+	evalWith := func(cal *ssa.Function, bind map[*ssa.Parameter]*ssa.Function) bool {
+		if len(cal.Blocks) == 0 || len(bind) == 0 {
+			return false
+		}
+		cut := map[*ssa.BasicBlock]bool{}
+		allInstrs(cal, func(in ssa.Instruction) {
+			if storesBody(in) {
+				cut[in.Block()] = true
+			}
+			c, ok := in.(*ssa.Call)
+			if !ok {
+				return
+			}
+			if must[staticCallee(c)] {
+				cut[c.Block()] = true
+				return
+			}
+			if par, ok := c.Call.Value.(*ssa.Parameter); ok {
+				if g := bind[par]; g != nil {
+					if errorResultIndex(g.Signature) >= 0 {
+						// the bound parser: it stores on its nil-error returns; the path on which it
+						// failed goes on (to the fallback) and is judged there
+						if must[g] {
+							// cut only the nil-error continuation: the block that tests the error
+							ev := errValueOf(c)
+							if ev != nil && ev.Referrers() != nil {
+								for _, u := range *ev.Referrers() {
+									if bo, ok := u.(*ssa.BinOp); ok && (bo.Op == token.EQL || bo.Op == token.NEQ) && bo.Referrers() != nil {
+										for _, u2 := range *bo.Referrers() {
+											if iff, ok := u2.(*ssa.If); ok {
+												nilSucc := iff.Block().Succs[0]
+												if bo.Op == token.NEQ {
+													nilSucc = iff.Block().Succs[1]
+												}
+												cut[nilSucc] = true
+											}
+										}
+									}
+								}
+							}
+						}
+					} else if storesOnAllPaths(g) {
+						cut[c.Block()] = true
+					}
+				}
+			}
+		})
+		// a test of a bound function parameter against nil has one feasible outcome at this call site
+		badEdge := map[[2]*ssa.BasicBlock]bool{}
+		for par := range bind {
+			if par.Referrers() == nil {
+				continue
+			}
+			for _, u := range *par.Referrers() {
+				bo, ok := u.(*ssa.BinOp)
+				if !ok || (bo.Op != token.EQL && bo.Op != token.NEQ) || (!isNilConst(bo.X) && !isNilConst(bo.Y)) || bo.Referrers() == nil {
+					continue
+				}
+				for _, u2 := range *bo.Referrers() {
+					if iff, ok := u2.(*ssa.If); ok {
+						nilSucc := iff.Block().Succs[0]
+						if bo.Op == token.NEQ {
+							nilSucc = iff.Block().Succs[1]
+						}
+						badEdge[[2]*ssa.BasicBlock{iff.Block(), nilSucc}] = true // infeasible here
+					}
+				}
+			}
+		}
+		if len(cut) == 0 {
+			return false
+		}
+		reach := map[*ssa.BasicBlock]bool{}
+		var visit func(b *ssa.BasicBlock)
+		visit = func(b *ssa.BasicBlock) {
+			if reach[b] || cut[b] {
+				return
+			}
+			reach[b] = true
+			for _, sc := range b.Succs {
+				if !badEdge[[2]*ssa.BasicBlock{b, sc}] {
+					visit(sc)
+				}
+			}
+		}
+		visit(cal.Blocks[0])
+		for _, ret := range returnsOf(cal) {
+			if reach[ret.Block()] {
+				return false
+			}
+		}
+		return true
+	}
 	// which function is responsible?  The one called from open that (transitively) stores Body.
 	var via []ssa.Instruction
 	var culprit *ssa.Function
@@ -534,7 +699,15 @@ func initFieldOnOpen(r *Run, open *ssa.Function, field string) {
 			if cal == nil || !p.inModule(cal) {
 				return
 			}
-			if must[cal] {
+			bind := map[*ssa.Parameter]*ssa.Function{}
+			for i, a := range c.Call.Args {
+				if i < len(cal.Params) {
+					if g := unwrapFn(a); g != nil {
+						bind[cal.Params[i]] = g
+					}
+				}
+			}
+			if must[cal] || evalWith(cal, bind) {
 				via = append(via, c)
 			} else {
 				// does it store Body at all?
